@@ -351,7 +351,7 @@ pub fn cargo_json(dir: &Path, cmd: &[&str]) -> (bool, Vec<Diag>, String) {
 // ------------------------------------------------------------------ C09
 
 pub fn c09_main(ctx: &Ctx, repo_bin_dir: Option<String>) -> i32 {
-    ctx.set_rule("grammar-directed definitions (anonymous structs/enums in every position, IDL and Rust keywords as field names, typedef references incl. recursion through [] and [string], 0-6 members) with at most one injected risky feature {anonymous type in error parameters, member name like a Rust keyword/prelude item, self/Self/super/crate as names, typedef named like a prelude or generated item}; front-ends: generate() in process, the varlink-rust-generator binary, varlink_derive::varlink!, a build script using cargo_build_many, and generate_with_options (substituted int/float types + preamble; as source file and as module body); oracle: rustc (cargo check) on crates that contain only emitted modules; rejection half: token-mutated texts the parser rejects; distinct = definition hash per front-end; non-trivial = >=1 anonymous or keyword-named element, or a rejected text one token away from a valid one");
+    ctx.set_rule("grammar-directed definitions (anonymous structs/enums in every position, IDL and Rust keywords as field names, typedef references incl. recursion through [] and [string], 0-6 members) with at most one injected risky feature {anonymous type in error parameters, member name like a Rust keyword/prelude item, self/Self/super/crate as names, typedef named like a prelude or generated item}; front-ends: generate() in process, the varlink-rust-generator binary, varlink_derive::varlink!, a build script using cargo_build_many, and generate_with_options (substituted int/float types + preamble; as source file and as module body); oracle: rustc (cargo check) on crates that contain only emitted modules; rejection half: token-mutated texts the parser rejects (library, binary, macro; and as one of several inputs of a build script, in every position); distinct = definition hash per front-end; non-trivial = >=1 anonymous or keyword-named element, or a rejected text one token away from a valid one");
     ctx.assume("the parser's verdict (accept/reject) is taken as given here; it is judged by C11");
     ctx.assume("recursion through `?` is not generated (whether that is 'finitely sized' is not decided by the statement); field names inside one struct, enum elements and member names are distinct");
     let n = ctx.tier.pick(60usize, 1500usize);
@@ -682,6 +682,46 @@ fn rejection(ctx: &Ctx, root: &Path, rng: &mut Rng, cli: Option<&str>) {
         }
     }
     let _ = std::fs::remove_dir_all(&dir);
+    // build-script helper: a rejected file among several inputs must fail the build script with
+    // a diagnostic wherever it stands in the list
+    let good = "interface org.verif.good\nmethod M(a: int) -> (b: string)\n";
+    let good2 = "interface org.verif.good2\ntype T (x: ?bool)\nmethod N() -> (t: T)\n";
+    for (oi, order) in [vec!["bad"], vec!["bad", "good"], vec!["good", "bad"], vec!["good", "bad", "good2"], vec!["bad", "good", "good2"]].iter().enumerate() {
+        if oi >= ctx.tier.pick(3, 5) {
+            break;
+        }
+        let bad = match rejected.get(oi) {
+            Some(b) => b,
+            None => break,
+        };
+        let dir = root.join(format!("bsrej{}", oi));
+        let mut files: Vec<(String, String)> = vec![("src/lib.rs".into(), "#![allow(warnings)]\n".into())];
+        let mut list = Vec::new();
+        for (k, which) in order.iter().enumerate() {
+            let text = match *which {
+                "bad" => bad.as_str(),
+                "good" => good,
+                _ => good2,
+            };
+            files.push((format!("idl/f{}_{}.varlink", k, which), text.to_string()));
+            list.push(format!("\"idl/f{}_{}.varlink\"", k, which));
+        }
+        let build = format!("fn main() {{ varlink_generator::cargo_build_many(&[{}]); }}\n", list.join(", "));
+        let cargo_extra = format!("\n[build-dependencies]\nvarlink_generator = {{ path = \"{}/varlink_generator\" }}\n", repo);
+        write_crate(&dir, &format!("bsrej{}", oi), &cargo_extra, &files, Some(&build));
+        let (ok, _diags, tail) = cargo_json(&dir, &["check"]);
+        ctx.case(Some(hash_of(&("build-script-rejected", order, bad))));
+        ctx.count("build_script_rejection_orderings", 1);
+        if ok {
+            ctx.violation(
+                "c09:build-script-front-end-accepts-rejected-input",
+                json!({"engine": "c09", "front_end": "cargo_build_many", "input_order": order, "text": bad, "message": "the build script finished successfully although one of its inputs is rejected by the parser"}),
+            );
+        } else if !tail.contains("Could not generate") && !tail.contains("arlink parse error") && !tail.contains("custom build command") {
+            ctx.inconclusive(json!({"harness": "build-script rejection crate failed for another reason", "tail": tail}));
+        }
+        let _ = std::fs::remove_dir_all(&dir);
+    }
 }
 
 pub fn c09_replay(ctx: &Ctx, w: &Value) {
